@@ -663,6 +663,55 @@ def directed_search_filters(ck):
     return bool(cands)
 
 
+def cli_plans(ck, n):
+    """the real CLI in child processes with different PYTHONHASHSEED values: the planned runs must not depend on
+    the process (set / dict iteration order), and are the scheduled runs"""
+    import subprocess
+    import sys
+    rng = ck.rng
+    for i in range(n):
+        cfg = gen_config(rng)
+        for su in cfg['benchmark_suites'].values():
+            su.pop('location', None)
+        for ex in cfg['executors'].values():
+            ex['path'] = '.'
+        sel = gen_selection(rng, cfg)
+        sel['cli'] = ['-in', '1']
+        codes = s02.Codes()
+        want = oracle_runs(cfg, sel, codes)
+        wd = os.path.join(ck.scratch, 'c01cli%d' % i)
+        os.makedirs(wd)
+        conf = drive.write_config(wd, cfg)
+        argv = ['-D', '-p', '-in', '1'] + (['-m', sel['machine']] if sel['machine'] else []) + [conf] + \
+            ([sel['exp']] if sel['exp'] else []) + sel['filters']
+        plans = {}
+        for hs in ('0', '1', str(rng.randint(2, 4000000))):
+            env = {'PYTHONHASHSEED': hs, 'PYTHONPATH': lib.REPO, 'PATH': os.environ.get('PATH', ''),
+                   'PYTHONDONTWRITEBYTECODE': '1', 'HOME': wd}
+            r = subprocess.run([sys.executable, '-B', '-m', 'rebench.rebench'] + argv, cwd=wd, env=env,
+                               stdout=subprocess.PIPE, stderr=subprocess.STDOUT, text=True, timeout=120)
+            ck.impl_traces += 1
+            plans[hs] = (r.returncode, sorted(l[l.index('harness_'):].strip() for l in r.stdout.split('\n') if 'harness_' in l),
+                         r.stdout[-400:])
+        inp = {'config': cfg, 'selection': sel, 'cli': True, 'hash_seeds': sorted(plans)}
+        al = find_aliases(cfg)
+        if al:
+            inp['aliases'] = al
+        ck.case(nontrivial_key='cli' + canon([cfg, sel]), sample=None)
+        ck.count('kind:cli-plan')
+        for hs, (rc, plan, tail) in plans.items():
+            if rc != 0 or 'Traceback' in tail:
+                ck.oracle_fail('plan_session_completes', dict(inp, hash_seed=hs), {'exit': rc, 'output': tail},
+                               {'kind': 'cli-crash'})
+            elif len(plan) != len(want):
+                ck.oracle_fail('plan_lists_scheduled_runs', dict(inp, hash_seed=hs),
+                               {'plan_lines': len(plan), 'scheduled': len(want)}, {'kind': 'cli-plan'})
+        distinct = {json.dumps(p[1]) for p in plans.values()}
+        if len(distinct) > 1:
+            ck.oracle_fail('planned_runs_independent_of_the_process', inp,
+                           {hs: p[1][:6] for hs, p in plans.items()}, {'kind': 'cli-hashseed'})
+
+
 def run(ck):
     quick = ck.tier == 'quick'
     if ck.gen_broken:
@@ -691,6 +740,7 @@ def run(ck):
     check_cases(ck, cases)
     subset_sweep(ck, 6 if quick else 40, 5 if quick else 8)
     sessions(ck, 40 if quick else 400)
+    cli_plans(ck, 6 if quick else 60)
 
 
 def replay(ck, data):
